@@ -416,6 +416,7 @@ func (t *Template) parseBlock() Node {
 	var pipe Expression
 
 	name := t.expect(itemIdentifier, context, "name")
+	line := t.lex.lineNumber() // of the block action itself, not of its {{end}}
 	bplist := t.blockParametersList(true, context)
 
 	if t.peekNonSpace().typ != itemRightDelim {
@@ -431,7 +432,7 @@ func (t *Template) parseBlock() Node {
 		contentList, end = t.itemList(nodeEnd)
 	}
 
-	block := t.newBlock(name.pos, t.lex.lineNumber(), name.val, bplist, pipe, list, contentList)
+	block := t.newBlock(name.pos, line, name.val, bplist, pipe, list, contentList)
 	t.passedBlocks[block.Name] = block
 	return block
 }
@@ -458,6 +459,7 @@ func (t *Template) parseYield() Node {
 	} else if name.typ != itemIdentifier {
 		t.unexpected(name, context, "block name")
 	}
+	line := t.lex.lineNumber() // of the yield action itself, not of the {{end}} of its content
 
 	// parse block parameters
 	bplist = t.blockParametersList(false, context)
@@ -484,7 +486,7 @@ func (t *Template) parseYield() Node {
 		}
 	}
 
-	return t.newYield(name.pos, t.lex.lineNumber(), name.val, bplist, pipe, content, false)
+	return t.newYield(name.pos, line, name.val, bplist, pipe, content, false)
 }
 
 func (t *Template) parseInclude() Node {
